@@ -31,6 +31,8 @@ pub enum Request {
     Parse(String),
     /// builder: type, name, namespace, version, subpath, qualifiers
     Build { ty: String, name: String, ns: String, version: String, subpath: String, quals: Vec<(String, String)> },
+    /// a qualifier collection filled by insert; lookups of the probes and comparisons of every stored key with them
+    Collection { pairs: Vec<(String, String)>, probes: Vec<String> },
 }
 
 fn hex(s: &str) -> String {
@@ -52,6 +54,18 @@ impl Request {
                     tail.push_str(&format!(" {}={}", hex(k), hex(v)));
                 }
                 (format!("B {tail}"), format!("U {tail}"))
+            },
+            Request::Collection { pairs, probes } => {
+                let mut line = String::from("Q");
+                for (k, v) in pairs {
+                    line.push_str(&format!(" {}={}", hex(k), hex(v)));
+                }
+                line.push_str(" |");
+                for p in probes {
+                    line.push_str(&format!(" {}", hex(p)));
+                }
+                // there is no typed variant of this request: the typed line is a typed parse of the empty string
+                (line, "T -".to_string())
             },
         }
     }
@@ -131,6 +145,7 @@ fn shrink(servers: &mut [Server], req: &Request) -> Request {
                 let cs: Vec<char> = s.chars().collect();
                 (0..cs.len()).map(|i| Request::Parse(cs.iter().enumerate().filter(|(j, _)| *j != i).map(|(_, c)| *c).collect())).collect()
             },
+            Request::Collection { .. } => Vec::new(),
             Request::Build { ty, name, ns, version, subpath, quals } => {
                 let mut v = Vec::new();
                 let base = |ty: &str, name: &str, ns: &str, version: &str, subpath: &str, quals: &[(String, String)]| Request::Build {
@@ -170,6 +185,22 @@ fn shrink(servers: &mut [Server], req: &Request) -> Request {
                 }
                 v
             },
+        };
+        let candidates = if let Request::Collection { pairs, probes } = &best {
+            let mut v = Vec::new();
+            for i in 0..pairs.len() {
+                let mut p = pairs.clone();
+                p.remove(i);
+                v.push(Request::Collection { pairs: p, probes: probes.clone() });
+            }
+            for i in 0..probes.len() {
+                let mut p = probes.clone();
+                p.remove(i);
+                v.push(Request::Collection { pairs: pairs.clone(), probes: p });
+            }
+            v
+        } else {
+            candidates
         };
         for c in candidates {
             if budget == 0 {
@@ -243,6 +274,37 @@ fn request_stream(tier: Tier, seed: u64) -> (Vec<Request>, Vec<(&'static str, us
             1 => generate(gfault(), tier.pick(20_000, 400_000) / chunks, s, &mut out, |c| inject(&c).map(|f| Request::Parse(f.text))),
             2 => generate(gsoup(), tier.pick(20_000, 400_000) / chunks, s, &mut out, |s| Some(Request::Parse(s))),
             3 => generate(gcorpus_mut(), tier.pick(20_000, 400_000) / chunks, s, &mut out, |s| Some(Request::Parse(s))),
+            6 => {
+                // keys, and probes that are the keys seen through every kind of case folding (the features
+                // bring different case machinery: unicase for the type table, char-wise lower-casing elsewhere)
+                let fold = |s: &str, mode: u8| -> String {
+                    match mode % 9 {
+                        0 => s.to_string(),
+                        1 => s.to_uppercase(),
+                        2 => s.replace('s', "\u{17f}"),
+                        3 => s.replace("ss", "\u{df}").replace("SS", "\u{1e9e}"),
+                        4 => s.replace('k', "\u{212a}").replace('K', "\u{212a}"),
+                        5 => s.replace("st", "\u{fb06}").replace("fi", "\u{fb01}").replace("ff", "\u{fb00}"),
+                        6 => s.replace('i', "\u{131}").replace('I', "\u{130}"),
+                        7 => s.chars().map(|c| if c.is_ascii_alphanumeric() { char::from_u32(c as u32 + 0xfee0).unwrap_or(c) } else { c }).collect(),
+                        _ => s.replace('a', "\u{e5}").replace('o', "\u{3bf}"),
+                    }
+                };
+                let key = proptest::prop_oneof![
+                    3 => crate::chars::gkey(),
+                    2 => crate::chars::gliteral(),
+                    2 => proptest::sample::select(&["checksum", "repository_url", "vcs_url", "download_url", "file_name", "classifier", "ss", "st", "fi", "k", "Kiss", "offset", "first", "is", "type"][..]).prop_map(str::to_string),
+                ];
+                let pairs = proptest::collection::vec((key, gtext(0)), 1..=4);
+                let strat = (pairs, proptest::collection::vec((proptest::arbitrary::any::<u8>(), proptest::arbitrary::any::<u8>(), gtext(0)), 1..=5));
+                generate(strat, tier.pick(40_000, 800_000) / chunks, s, &mut out, move |(pairs, raw): (Vec<(String, String)>, Vec<(u8, u8, String)>)| {
+                    let probes: Vec<String> = raw
+                        .into_iter()
+                        .map(|(which, mode, other)| if mode % 10 == 9 { other } else { fold(&pairs[which as usize % pairs.len()].0, mode) })
+                        .collect();
+                    Some(Request::Collection { pairs, probes })
+                })
+            },
             5 => generate(crate::props::c07::gpieces(), tier.pick(20_000, 400_000) / chunks, s, &mut out, |c| {
                 Some(Request::Parse(crate::props::c07::strings_for(&c, if c.pieces.len() % 2 == 0 { "t" } else { "golang" })))
             }),
@@ -267,7 +329,7 @@ fn request_stream(tier: Tier, seed: u64) -> (Vec<Request>, Vec<(&'static str, us
         }
         out
     };
-    let jobs: Vec<(usize, usize)> = [0usize, 1, 2, 3, 5, 4].iter().flat_map(|k| (0..chunks).map(move |c| (*k, c))).collect();
+    let jobs: Vec<(usize, usize)> = [0usize, 1, 2, 3, 5, 6, 4].iter().flat_map(|k| (0..chunks).map(move |c| (*k, c))).collect();
     let results: Vec<Vec<Request>> = std::thread::scope(|scope| {
         let hs: Vec<_> = jobs.iter().map(|(k, c)| { let g = &gen_strings; scope.spawn(move || g(*k, *c)) }).collect();
         hs.into_iter().map(|h| h.join().unwrap_or_default()).collect()
@@ -370,8 +432,18 @@ impl Section for FeatureDifferential {
                 break;
             }
             let a = &outs[2][g];
-            let interesting = a.starts_with("OK") || (a.starts_with("ERR") && !a.contains("UnsupportedUrlScheme"));
-            *classes.entry(if a.starts_with("OK") { "accepted" } else if a.starts_with("ERR") { "refused" } else { "other" }).or_insert(0) += 1;
+            let interesting = a.starts_with("OK") || (a.starts_with("ERR") && !a.contains("UnsupportedUrlScheme")) || a.starts_with("Q ");
+            *classes
+                .entry(if a.starts_with("OK") {
+                    "accepted"
+                } else if a.starts_with("ERR") {
+                    "refused"
+                } else if a.starts_with("Q ") {
+                    "collection-request (lookups and key comparisons)"
+                } else {
+                    "other"
+                })
+                .or_insert(0) += 1;
             if outs[2][t].starts_with("OK") {
                 *classes.entry("typed-accepted").or_insert(0) += 1;
             }
@@ -441,12 +513,13 @@ pub fn prop() -> Prop {
         id: "C17",
         sections,
         rule: "One deterministic request stream (the bounded token language at L = 3 / 4, every pypi / nuget name up to length 4 / 5 over the 11-letter name alphabet, generated legal and single-fault \
-               spellings, token soup, mutated conformance strings, builder inputs with arbitrary text) is answered by the \
+               spellings, token soup, mutated conformance strings, builder inputs with arbitrary text, qualifier collections \
+               probed with their own keys seen through nine kinds of case folding) is answered by the \
                same line-protocol server built four times: no features, package-type, package-type+smartstring (default), \
                default+serde. Oracle (differential): identical outcome lines (Ok + type + accessors + canonical string, or \
                Err + variant + Display text) for the type-agnostic API across all four builds and for the typed API \
                across the three that have it. Non-trivial = a request that is accepted or refused later than the scheme \
-               check ;distinct by hash of the request line.",
+               check, or a collection request; distinct by hash of the request line.",
         assumptions: &["the four feature sets named in the property are the ones compared", "each server is a separate process; answers are compared as text"],
         extra: None,
     }
